@@ -118,6 +118,12 @@ def main():
                                     continue      # prov.read takes a source (stream or path)
                                 d2 = prov.read(kw["source"])
                                 how = "prov.read"
+                                # ... and told the format, in either case of letters
+                                for given in (fmt, fmt.upper()):
+                                    d3 = prov.read(mk()["source"], format=given)
+                                    if common.strict(d3) != common.strict(d2):
+                                        fail("read-detects-format", "%s:%s:explicit-format-differs" % (fmt, sk),
+                                             "%s: prov.read(format=%r) from %s differs from prov.read without format" % (key, given, sk))
                             s2 = common.strict(d2)
                             if base is None:
                                 base = s2          # the document read from the content string is the reference for all other sources
